@@ -776,7 +776,7 @@ func c20SDK(c *Ctx) {
 			if !ok || len(rs.Results) != 1 {
 				continue
 			}
-			if v, isV := objOf(minfo, rs.Results[0]).(*types.Var); isV && v.Name() == "defaultValue" {
+			if v, isV := objOf(minfo, rs.Results[0]).(*types.Var); isV && isParamOf(v, g.F) { // the default handed in by the caller
 				continue
 			}
 			n++
@@ -1017,8 +1017,11 @@ func c20SDK(c *Ctx) {
 	}
 	optCall := func(info *types.Info, call *ast.CallExpr) bool {
 		// opt(&o) / opt.apply(o) / o.applyPeriodic(c)
-		if v, ok := objOf(info, call.Fun).(*types.Var); ok && (v.Name() == "opt" || v.Name() == "o") {
-			return true
+		// a call through a loop variable of function type (for _, opt := range options { opt(&o) })
+		if v, ok := objOf(info, call.Fun).(*types.Var); ok && !v.IsField() {
+			if _, isSig := v.Type().Underlying().(*types.Signature); isSig {
+				return true
+			}
 		}
 		if cf := callee(info, call); cf != nil && (cf.Name() == "apply" || cf.Name() == "applyPeriodic") && len(call.Args) == 1 {
 			return true
@@ -1221,6 +1224,20 @@ func producesSetting(ix *PkgIndex, n ast.Node, fSet *types.Var) bool {
 				return true
 			})
 			return n > 0 && good
+		}
+	}
+	return false
+}
+
+// isParamOf: v is a parameter of fn.
+func isParamOf(v *types.Var, fn *FuncInfo) bool {
+	if fn == nil || fn.Obj == nil {
+		return false
+	}
+	ps := fn.Obj.Type().(*types.Signature).Params()
+	for i := 0; i < ps.Len(); i++ {
+		if ps.At(i) == v {
+			return true
 		}
 	}
 	return false
